@@ -10,7 +10,11 @@ import SpoxModel.Props.C09
 #print axioms C09.entry_invariant
 #print axioms C09.node_valid_at_import_partial
 #print axioms C09.decision_total
-#print axioms C09.body_own_opsets_counterexample
+#print axioms C09.convert_only_when_needed
+#print axioms C09.body_opsets_agree
+#print axioms C09.function_opsets_agree
+#print axioms C09.body_own_opsets_pinned_counterexample
+#print axioms C09.body_witness_now_converted
 #print axioms C09.unknown_rank_counterexample
 #print axioms C09.adapted_names_fresh
 #print axioms C09.adapted_names_fresh_pinned_counterexample
